@@ -3368,7 +3368,7 @@ class C14(Prop):
             return None
         cases, want = [], {}
         for i in range(ctx.n(400, 4000) * budget_scale):
-            # C14_functions_after_filters_from_text: a quarter of the paths have filter steps (then no aggregate: filter functions only)
+            # C14_functions_after_filters_from_text / C14_aggregate_after_filters_from_text: a quarter of the paths have filter steps
             with_filters = r.random() < 0.25
             for _try in range(5):
                 doc, text, spec, cur = gen_chain(g, filters=0.35) if with_filters else gen_chain(g)
@@ -3378,13 +3378,11 @@ class C14(Prop):
                      for _ in range(r.randint(1, 3))]
             calls, outs = [], []
             agg = r.choice(['cnt', 'first', 'arr', 'amax', 'amax', 'afail']) if r.random() < 0.4 else None
-            if any(st[0] >= 7 for st in spec):
-                agg = None
             if agg:
                 # C14_aggregate_from_text: the aggregate first, called once with everything the steps reach (or with the
                 # elements of the single array a single-valued path reaches), not at all when they reach nothing
                 names = names[:r.randint(0, 2)]
-                vg = any(st[0] in (2, 3, 4, 5) or (st[0] == 6 and (len(st[1]) > 1 or st[1][0][0] != 'i')) for st in spec)
+                vg = any(st[0] in (2, 3, 4, 5) or 7 <= st[0] <= 15 or (st[0] == 6 and (len(st[1]) > 1 or st[1][0][0] != 'i')) for st in spec)
                 if cur:
                     args = list(cur) if vg or cur[0][0] != 'a' else list(cur[0][1])
                     calls.append('G(%s,[%s])' % (agg, ','.join(core.doc_render(a_) for a_ in args)))
